@@ -253,7 +253,7 @@ func streamC18(c *Ctx) {
 	dr := StartDriver(c.DriverBin)
 	defer dr.Close()
 	g := NewGen(c.Rng, Domain{})
-	n := c.N(4000, 100000)
+	n := c.N(15000, 200000)
 	for i := 0; i < n; i++ {
 		v, dj := genGo(g, 3, false)
 		line := J{"k": "norm", "v": dj}
@@ -317,7 +317,7 @@ func streamC18(c *Ctx) {
 	}
 	// the declared family: embedded flattening, unexported fields, round trips
 	now := mkTime(1577923200123456789, 3600)
-	for i := 0; i < c.N(200, 3000); i++ {
+	for i := 0; i < c.N(800, 6000); i++ {
 		o := Outer{EmbA: EmbA{B1: int8(g.pick(5) - 2), S: []int{g.pick(3), 7}}, X: int8(g.pick(3)), hidden: 4, Name: boundaryStrings[g.pick(4)]}
 		if g.pick(2) == 0 {
 			o.P = &now
